@@ -187,14 +187,15 @@ def run(shard, rec):
             q = rng.choice([101, 257, 2**31 - 1, 11, 7, 65537, 2**64 - 59, 13])          # primes = 1 and = 3 mod 4 (random bits use a square root in the former)
             if q <= m:
                 q = 101
-            vals = [rng.randrange(q) for _ in range(3)]
+            vals = [rng.randrange(1, q), rng.randrange(q), rng.randrange(1, q)]
             spec = {'q': q, 'vals': vals}
-            ref = [vals[0], vals[1], vals[2], (vals[0] * vals[1]) % q, (vals[0] * vals[1] + vals[2]) % q, pow(vals[2], 3, q), int(vals[0] == vals[1])]
+            ref = [vals[0], vals[1], vals[2], (vals[0] * vals[1]) % q, (vals[0] * vals[1] + vals[2]) % q, pow(vals[2], 3, q), int(vals[0] == vals[1]),
+                   pow(vals[0], -1, q), vals[1] * pow(vals[2], -1, q) % q, pow(vals[2], -2, q)]
 
             async def program(mpc, pid, spec=spec):
                 secfld = mpc.SecFld(spec['q'])
                 xs = [mpc.input(secfld(v if pid == i % len(mpc.parties) else 0), senders=i % len(mpc.parties)) for i, v in enumerate(spec['vals'])]
-                nodes = xs + [xs[0] * xs[1], xs[0] * xs[1] + xs[2], xs[2] ** 3, xs[0] == xs[1]]
+                nodes = xs + [xs[0] * xs[1], xs[0] * xs[1] + xs[2], xs[2] ** 3, xs[0] == xs[1], 1 / xs[0], xs[1] / xs[2], xs[2] ** -2]
                 rb = mpc.random_bits(secfld, 3)              # observed through the hook on random_bits: consistent degree-t sharings of 0/1 at all parties
                 await mpc.gather(rb)
                 sh = await mpc.gather(nodes)
@@ -231,7 +232,7 @@ def run(shard, rec):
             elif kind == 'fxp':
                 opname = spec['steps'][k - len(spec['inputs'])][0] if k >= len(spec['inputs']) else 'input'
             else:
-                opname = ['input', 'input', 'input', 'mul', 'muladd', 'pow', 'eq'][k]
+                opname = ['input', 'input', 'input', 'mul', 'muladd', 'pow', 'eq', 'reciprocal', 'div', 'pow-neg'][k]
             check_sharing(shares, f'{what0} node {k} ({opname})', {'where': 'node', 'op': opname, 'kind': kind}, wit, case, expect=refvals[k], counter='node_sharings_checked')
         # (b) internal calls, matched across parties by (program counter, function, occurrence)
         per = {}
